@@ -116,7 +116,7 @@ func (c *MemConn) SetWriteErr(err error) {
 // nothing is emitted for them.
 func (c *MemConn) FailNextWrites(n int, err error) {
 	c.mu.Lock()
-	c.failN, c.failErr = n, err
+	c.failSkip, c.failN, c.failErr = 0, n, err
 	c.mu.Unlock()
 }
 
@@ -143,9 +143,28 @@ func (c *MemConn) takeLateFail() error {
 func (c *MemConn) takeFail() error {
 	c.mu.Lock()
 	defer c.mu.Unlock()
+	if c.failSkip > 0 {
+		c.failSkip--
+		return nil
+	}
 	if c.failN > 0 {
 		c.failN--
 		return c.failErr
 	}
 	return nil
+}
+
+// TempNetErr is a transport error of the kind a connected UDP socket reports after an ICMP port-unreachable
+// (ECONNREFUSED): a net.Error that is temporary and not a timeout.
+type TempNetErr struct{}
+
+func (TempNetErr) Error() string   { return "injected: connection refused (temporary)" }
+func (TempNetErr) Timeout() bool   { return false }
+func (TempNetErr) Temporary() bool { return true }
+
+// FailWriteNumber makes the k-th WriteTo from now (k >= 1) fail once with err; the writes before it succeed.
+func (c *MemConn) FailWriteNumber(k int, err error) {
+	c.mu.Lock()
+	c.failSkip, c.failN, c.failErr = k-1, 1, err
+	c.mu.Unlock()
 }
